@@ -86,6 +86,8 @@ func main() {
 		nm := names
 		if r.Method == "HEAD" {
 			nm = nil
+		} else if r.Marker != "" {
+			nm = append(append([]string{}, nm...), r.Marker)
 		}
 		if wt := c20lib.CheckResponse(r.Method, r.Maxmem, r.Augment, r.Similarity, r.Status, r.ContentType, r.Body, min, max, nm); wt != "" {
 			report("web: " + wt + " — " + r.Req.Describe())
